@@ -82,12 +82,12 @@ def floors(tier):
         "history:inproc-edit": 2 * n,
         "history:same-name-home": n,
         "history:package": n,
-        "history:lib-path": 3 * n,
-        "history:in-memory-change": 2 * n,
-        "in_memory_change_applied": 2 * n,
+        "history:lib-path": 3 * max(1, n - 3),
+        "history:in-memory-change": 2 * max(1, n - 3),
+        "in_memory_change_applied": 2 * max(1, n - 3),
         "history:isa-edited": max(1, n - 2),
         "history:isa-inproc-edit": 2 * max(1, n - 2),
-        "lib_warm_hit_confirmed": 2 * n,
+        "lib_warm_hit_confirmed": 2 * max(1, n - 3),
         "set:lib_path_names": 3,
         "history:truncated": (6 if t else 5) * n,
         "history:killed": (5 if t else 2) * n,
